@@ -69,3 +69,8 @@ claim("C08",
       "Generated abstract region tables (unsorted, start 0, duplicates, natural-vs-lexical chromosome orders, exotic contigs, extreme floats, 1..4 SEG samples) are rendered by the harness in 12 formats and read back: coordinates must be the abstract 0-based half-open rows, sorted, and read_auto must agree with the explicit reader; tab (cnvlib.read), bed3, bed4, interval, text and export seg -> parse_seg round trips must return the sorted table (integers exact, floats to 6 digits) and a second write must be byte-identical.",
       "Trusted: the harness renderers (written from the published format conventions); names/labels start with a letter or are plain integers; order between exotic contigs not asserted; one open finding (negative zero in an all-integral float column) excluded by signature.",
       "DESIGN.md 5/C08")
+claim("C18",
+      "property-based testing (Hypothesis): generated VCF texts interpreted line by line in the harness and compared with the reader, het selection and per-range BAF",
+      "Generated VCFs (1..3 samples, PEDIGREE or not, GT/AD/DP present, absent or '.', SNVs and indels, SOMATIC/FILTER flags) are read with generated sample/normal selectors, min_depth and skip_somatic; each row must carry the file's start, depth, alt count, alt_freq, zygosity and somatic flag for the pair chosen by the documented precedence, filtered as asked; load_het_snps must keep exactly the germline hets; baf_by_ranges must equal the median of the mirrored het frequencies per range (NaN when none), with TumorBoost and the purity rescale by their formulas, through do_call as well.",
+      "Trusted: the harness interpretation of VCF fields; pysam as the parser underneath both; incomplete records only required finite; zero-het fallback and the all-0/0-normal work-around not asserted.",
+      "DESIGN.md 5/C18")
